@@ -11,11 +11,14 @@
 (* offset and its length).                                                 *)
 (***************************************************************************)
 EXTENDS VFOpen, TLC
-CONSTANTS MaxLinks, Lens, Chunk, Read, Shapes, Trim
+CONSTANTS MaxLinks, Lens, Chunk, Read, Shapes, Trim, Damage, Clamp
 G0s == IF Trim THEN {0, 2, -2} ELSE {0, 2}      \* -2: the first page announces fewer samples than its packets account for
-VARIABLES chain          \* sequence of [shape, len, g0]
-vars == <<chain>>
-K == [chunk |-> Chunk, near |-> 3, read |-> Read, backup |-> "begin", handover |-> "refetch"]
+VARIABLES chain,         \* sequence of [shape, len, g0]
+          dmg,           \* the damage done to the page sequence: a sequence of [k, kind] (empty: none)
+          res,           \* what the open makes of it (computed once per file)
+          judged         \* res is there
+vars == <<chain, dmg, res, judged>>
+K == [chunk |-> Chunk, near |-> 3, read |-> Read, backup |-> "begin", handover |-> "refetch", clamp |-> Clamp]
 
 \* shape = [mux, hdr, data]: mux 0 none / 1 foreign BOS after ours / 2 before; hdr = pages the two remaining header packets take; data over {"v","n","f"}
 Catalogue == <<
@@ -48,8 +51,28 @@ Flat(ch, i) == IF i > Len(ch) THEN <<>> ELSE LinkPages(i, ch[i]) \o Flat(ch, i +
 RECURSIVE WithOff(_, _, _)
 WithOff(ps, k, o) == IF k > Len(ps) THEN <<>> ELSE << [off |-> o, len |-> ps[k].len, ser |-> ps[k].ser, gp |-> ps[k].gp, bos |-> ps[k].bos, hp |-> ps[k].hp, dur |-> ps[k].dur,
                                                          ours |-> FALSE] >> \o WithOff(ps, k + 1, o + ps[k].len)
-PG == WithOff(Flat(chain, 1), 1, 0)
-VS == { VSer(i) : i \in 1..Len(chain) }
+\* damage: a file of well-formed pages (every checksum right) that no encoder wrote - one page with another serial number, BOS flag or granule position, missing or doubled
+DamageKinds == {"ser-foreign", "ser-other", "ser-new", "bos", "gp-none", "gp-zero", "gp-big", "gp-neg", "drop", "dup"}
+Hit(ps, m) ==
+  LET p == ps[m.k]
+      lk == (p.ser \div 10)
+      q == CASE m.kind = "ser-foreign" -> [p EXCEPT !.ser = FSer(lk)]
+             [] m.kind = "ser-other" -> [p EXCEPT !.ser = VSer(IF lk = 1 THEN 2 ELSE 1)]
+             [] m.kind = "ser-new" -> [p EXCEPT !.ser = 99]
+             [] m.kind = "bos" -> [p EXCEPT !.bos = ~@]
+             [] m.kind = "gp-none" -> [p EXCEPT !.gp = -1]
+             [] m.kind = "gp-zero" -> [p EXCEPT !.gp = 0]
+             [] m.kind = "gp-big" -> [p EXCEPT !.gp = 50]
+             [] m.kind = "gp-neg" -> [p EXCEPT !.gp = -5]
+             [] OTHER -> p
+  IN IF m.kind = "drop" THEN SubSeq(ps, 1, m.k - 1) \o SubSeq(ps, m.k + 1, Len(ps))
+     ELSE IF m.kind = "dup" THEN SubSeq(ps, 1, m.k) \o SubSeq(ps, m.k, Len(ps))
+     ELSE [ps EXCEPT ![m.k] = q]
+RECURSIVE HitAll(_, _, _)
+HitAll(ps, d, i) == IF i > Len(d) THEN ps ELSE IF d[i].k > Len(ps) THEN HitAll(ps, d, i + 1) ELSE HitAll(Hit(ps, d[i]), d, i + 1)
+PGof(ch, d) == WithOff(HitAll(Flat(ch, 1), d, 1), 1, 0)
+PG == PGof(chain, dmg)
+VSof(ch) == { VSer(i) : i \in 1..Len(ch) }
 \* the truth
 NPagesBefore(i) == LET RECURSIVE S(_) S(j) == IF j = 0 THEN 0 ELSE S(j - 1) + Len(LinkPages(j, chain[j])) IN S(i - 1)
 LinkStart(i) == PG[NPagesBefore(i) + 1].off
@@ -59,10 +82,27 @@ NV(i) == LET d == Catalogue[chain[i].shape].data IN Cardinality({ j \in 1..Len(d
 First(i) == IF NV(i) = 0 \/ chain[i].g0 < 0 THEN 0 ELSE chain[i].g0
 Truth == [i \in 1..Len(chain) |-> [off |-> LinkStart(i), ser |-> VSer(i), doff |-> DataOff(i), first |-> First(i), len |-> IF NV(i) = 0 THEN 0 ELSE chain[i].g0 + 3 * NV(i) - First(i)]]
 
-Init == chain \in UNION { [1..n -> [shape : Shapes, len : Lens, g0 : G0s]] : n \in 1..MaxLinks }
-Next == UNCHANGED vars
+\* the file is chosen in two steps (the chain, then the damage) so that TLC's workers share the files among them
+MaxPagesOfChain == MaxLinks * 7
+Chains == UNION { [1..n -> [shape : Shapes, len : Lens, g0 : G0s]] : n \in 1..MaxLinks }
+Damages == UNION { [1..n -> [k : 1..MaxPagesOfChain, kind : DamageKinds]] : n \in 1..Damage }
+OpenOf(ch, d) == Open(PGof(ch, d), VSof(ch), K)
+Init == chain = <<>> /\ dmg = <<>> /\ res = <<>> /\ judged = FALSE
+PickChain == chain = <<>> /\ chain' \in Chains /\ dmg' = <<>> /\ judged' = (Damage = 0) /\ res' = IF Damage = 0 THEN OpenOf(chain', <<>>) ELSE <<>>
+PickDamage == chain # <<>> /\ ~judged /\ judged' = TRUE /\ dmg' \in Damages /\ chain' = chain /\ res' = OpenOf(chain, dmg')
+Next == PickChain \/ PickDamage
 Spec == Init /\ [][Next]_vars
-R == Open(PG, VS, K)
-OpenSucceeds == R.ok
-LinkTableIsTheTruth == R.ok => R.links = Truth
+Judged == judged
+R == res
+OpenSucceeds == Judged => R.ok
+LinkTableIsTheTruth == Judged /\ R.ok => R.links = Truth
+\* on damaged files there is no truth to compare the table with; what must hold is that the open ends, asks only for offsets inside the file, and
+\* - when it accepts the file - hands the rest of the library a table it can work with
+ProbeSet == { R.probes[i] : i \in 1..Len(R.probes) }
+NoLoopBoundHit == Judged => -999 \notin ProbeSet
+ProbesInsideFile == Judged => \A o \in ProbeSet \ {-999} : o >= 0 /\ o <= DataEnd(PG)
+TableSane == Judged /\ R.ok => /\ Len(R.links) >= 1
+                               /\ \A i \in 1..Len(R.links) : R.links[i].off >= 0 /\ R.links[i].doff > R.links[i].off /\ R.links[i].doff <= DataEnd(PG) /\ R.links[i].len >= 0 /\ R.links[i].first >= 0
+                               /\ \A i \in 1..(Len(R.links) - 1) : R.links[i].doff <= R.links[i + 1].off
+\* how often the damaged file is accepted at all (coverage, printed by the check)
 =============================================================================
